@@ -9,8 +9,21 @@ from .. import mgmt
 PROP = "C04"
 W = dict(p_add=3, p_add_many=1, p_remove=2, p_remove_many=1, p_remove_filtered=1, p_update=1, p_update_many=0.5,
          p_update_filtered=0, g_add=7, g_add_many=5, g_remove=6, g_remove_many=4, g_remove_filtered=3, rbac=6,
-         clear=1, load=1.5, save=0.5, build=0.5, flags=0, query=4, probe=3)
+         clear=1, load=1.5, save=0.5, build=0.5, flags=0, query=4, probe=3, long_g=0.1)
 QUERY_OPS = set(range(50, 71))
+KNOWN_PREFIX = "C04/overlong-rules-share-a-link"
+
+
+def known_probe(chk):
+    """the listed known finding, replayed on every run: two grouping rules with the same declared-arity prefix (one
+    carries an extra field) share ONE role link; removing either takes the link away although the other rule stays"""
+    A = mgmt.ATOMS.a
+    kind = mgmt.KINDS["rbac"]
+    uni = mgmt.Universe(kind)
+    rows = [(0, [A("admin"), A("data1"), A("read")]), (1, [A("alice"), A("admin")])]
+    ops = [(1, 1, [A("alice"), A("admin"), A("data2")])] + mgmt.probe_ops(kind, uni) + \
+          [(3, 1, [A("alice"), A("admin"), A("data2")])] + mgmt.probe_ops(kind, uni)
+    mgmt.run_cases(chk, kind, [(rows, True, ops)], spec_check, label="known-finding-probe", compare_model=False)
 
 
 def fresh_results(kind, stores_obs, qops):
@@ -35,7 +48,8 @@ def spec_check(kind, rows, lf, ops, obs, impl):
             if exp is not None:
                 for k in range(i, j):
                     if obs[k][0] != exp[k - i]:
-                        out.append((k, f"query result differs from a freshly constructed enforcer holding the current policy"))
+                        tag = KNOWN_PREFIX if mgmt.prefix_aliases(kind, rows, ops[:k + 1]) else None
+                        out.append((k, f"query result differs from a freshly constructed enforcer holding the current policy", tag))
                         return out
             i = j
         else:
@@ -165,6 +179,7 @@ def targeted_cases(kind):
 
 def run(chk, n_random, targeted_len):
     rng = chk.rng
+    known_probe(chk)
     for kn in ("rbac", "dom"):
         kind = mgmt.KINDS[kn]
         cases = [c for c in targeted_cases(kind) if sum(1 for o in c[2] if o[0] < 50) <= targeted_len]
@@ -177,7 +192,7 @@ def run(chk, n_random, targeted_len):
         for _ in range(n_random):
             g = mgmt.Gen(rng, kind, W)
             rows = g.rows(rng.randint(0, 8))
-            cases.append((rows, True, g.history(rng.randint(4, 18))))
+            cases.append((rows, True, mgmt.drop_prefix_aliases(kind, rows, g.history(rng.randint(4, 18)))))
         mgmt.run_cases(chk, kind, cases, spec_check, label=f"random-{kn}")
         chk.extra["strata"][f"random_{kn}"] = len(cases)
     for kn in ("rbac", "dom"):
@@ -207,7 +222,9 @@ def main():
                 "plain RBAC and domain models; random histories on RBAC / resource roles / domains / deny models; "
                 "non-trivial = at least one mutating call; distinct by (kind, mutating calls)")
     chk.assumptions = [
-        "auto_build_role_links stays on (the property's own premise); grouping rules have the declared arity",
+        "auto_build_role_links stays on (the property's own premise); grouping rules have at least the declared arity; rules "
+        "with MORE fields are generated too, but two rules sharing their declared-arity prefix are the listed finding "
+        "C04/overlong-rules-share-a-link (probed on every run, excluded from the random strata)",
         "no matching functions registered (pattern assignments are C14)",
         "the fresh reference enforcer is a real casbin.Enforcer loading the current policy through an in-memory adapter",
     ]
